@@ -113,6 +113,37 @@ def around_union_trials(ctx):
                     cfg.fail_on_converter_warnings = strict
 
 
+def union_element_attributes(ctx):
+    """Unknown attributes ON a union-of-models element (no candidate declares them): ignored unless
+    fail_on_unknown_attributes, xsi attributes always tolerated - exactly as on any other element."""
+    from xsdata.formats.dataclass.context import XmlContext
+    from xsdata.formats.dataclass.parsers import XmlParser
+
+    from .. import handler_bind as hb
+    from ..poly_models import UThenInt
+
+    XSI = 'xmlns:xsi="http://www.w3.org/2001/XMLSchema-instance"'
+    plain = "<UThenInt><u><w>s</w><v>1</v></u><n>2</n></UThenInt>"
+    xctx = XmlContext()
+    for h in ("native", "lxml"):
+        base = XmlParser(context=xctx, handler=hb.HANDLERS[h]).from_string(plain, UThenInt)
+        for label, attrs, unknown in (("unknown", ' zz="1"', True), ("qualified-unknown", ' xmlns:o="urn:o" o:zz="1"', True),
+                                      ("xsi", f' {XSI} xsi:schemaLocation="urn:a a.xsd"', False), ("xsi-nil-false", f' {XSI} xsi:nil="false"', False)):
+            text = plain.replace("<u>", f"<u{attrs}>")
+            for ua in (False, True):
+                ctx.case(("union-attrs", h, label, ua))
+                try:
+                    got = ("ok", XmlParser(context=xctx, handler=hb.HANDLERS[h], config=ParserConfig(fail_on_unknown_attributes=ua)).from_string(text, UThenInt))
+                except Exception as ex:  # noqa: BLE001
+                    got = ("exc", ex)
+                info = {"text": text, "handler": h, "fail_on_unknown_attributes": ua}
+                if ua and unknown:
+                    if not (got[0] == "exc" and isinstance(got[1], ParserError)):
+                        ctx.violation(f"unknown attribute on a union element with fail_on_unknown_attributes ({h}): expected ParserError, got {got[1]!r}"[:400], info)
+                elif got != ("ok", base):
+                    ctx.violation(f"{label} attribute on a union element ({h}, fail_on_unknown_attributes={ua}) changed the result: {got[1]!r} vs {base!r}"[:500], info)
+
+
 def restricted_wildcards(ctx):
     """Unknown content whose LOCAL name also occurs, in an admitted namespace, earlier or later in the same document:
     a ##other wildcard admits o:note / o:id and must not thereby admit w:note / w:id (the target namespace)."""
@@ -280,6 +311,7 @@ def run(ctx):
     dict_options(ctx, cases)
     dict_poly(ctx)
     around_union_trials(ctx)
+    union_element_attributes(ctx)
     restricted_wildcards(ctx)
     if cases:
         c = next((x for x in cases if x["fault"] == "unknownLast"), cases[0])
